@@ -89,6 +89,9 @@ type Config struct {
 	EqualStamps    bool // some ingresses share the creation timestamp
 	PathTypes      bool // Exact / Prefix / ImplementationSpecific / nil (else always Prefix... see genPath)
 	GlobalKeys     [][]string
+	// TCP turns some ingresses into TCP services (tcp-service-port and the port-level
+	// tcp-service-* keys; several ingresses may share a port). Not in Full().
+	TCP bool
 	// Gateway adds Gateway API objects (GatewayClass, Gateway, HTTPRoute v1) sharing services
 	// and secrets with the ingresses; the pipeline needs Options.HasGatewayV1. Not in Full().
 	Gateway bool
@@ -430,7 +433,25 @@ func GenIngress(rng *rand.Rand, cfg Config, k int) *networking.Ingress {
 			ing.Annotations[AnnPrefix+a[0]] = a[1+rng.Intn(len(a)-1)]
 		}
 	}
+	if cfg.TCP && rng.Intn(3) == 0 {
+		if ing.Annotations == nil {
+			ing.Annotations = map[string]string{}
+		}
+		ing.Annotations[AnnPrefix+"tcp-service-port"] = pick(rng, []string{"7000", "7000", "7001"})
+		for i, n := 0, rng.Intn(3); i < n; i++ {
+			a := pick(rng, TCPAnnWhitelist)
+			ing.Annotations[AnnPrefix+a[0]] = a[1+rng.Intn(len(a)-1)]
+		}
+	}
 	return ing
+}
+
+// TCPAnnWhitelist are the port-level keys of TCP services.
+var TCPAnnWhitelist = [][]string{
+	{"tcp-service-proxy-protocol", "true", "false"},
+	{"tcp-service-log-format", "%ci:%cp [%t] %ft", "%ci %b"},
+	{"config-tcp-service", "tcp-request content reject if { src 10.9.9.9 }", "tcp-request content accept"},
+	{"proxy-protocol", "v1", "v2"},
 }
 
 // GenCluster generates a whole cluster: services + endpoints in every namespace (each
